@@ -593,10 +593,10 @@ def dispatch(t):
 def main():
     run = Run("C16")
     jaq = build.cli()
-    ng = run.size(1500, 120000)
+    ng = run.size(6000, 120000)
     per = 25
     tasks = [("graph", (run.seed, i, per)) for i in range(max(2, ng // per))]
-    nv = run.size(160, 4000)
+    nv = run.size(500, 4000)
     rng = run.rng("search")
     for i in range(8):
         tasks.append(("search", (run.seed, i, search_variants(rng, max(1, nv // 8)), jaq)))
